@@ -15,6 +15,21 @@ SLACK = 2          # fixed-point units of rounding slack on top of eps = 1e-6 * 
 ACTIONS = ("Step", "Reject", "Done")
 
 
+def final_coverage(res):
+    """per-action (distinct, total) counts of the LAST coverage report in TLC's output.
+    (`-coverage 1` also prints interim reports when a run exceeds a minute; TLCResult.coverage
+    sums all of them, which is fine for 'was this action ever taken' but not for counting.)"""
+    import re
+    out = res.stdout
+    k = out.rfind("The coverage statistics at")
+    blk = out[k:] if k >= 0 else out
+    cov = {}
+    for m in re.finditer(r"<(\w+) line \d+, col \d+ to line \d+, col \d+ of module \w+>: (\d+):(\d+)", blk):
+        a = cov.get(m.group(1), (0, 0))
+        cov[m.group(1)] = (a[0] + int(m.group(2)), a[1] + int(m.group(3)))
+    return cov
+
+
 def exhaustive_reference(max_pop, max_rows, workers=8):
     cfg = tlc.cfg_text({"MaxPop": max_pop, "MaxRows": max_rows},
                        invariants=["TypeOK", "Conserved", "InBounds", "RowsOK"],
@@ -61,8 +76,10 @@ def validate(traces, chunks=4, workers=4):
         for rec in res.printed("REJ"):
             _, tid, row, cl = rec
             rejects[base + tid - 1] = (row, sorted(cl["__set__"]))
-        done = res.coverage.get("Done", (0, 0))[0]
-        rej = res.coverage.get("Reject", (0, 0))[0] + res.coverage.get("RejectEmpty", (0, 0))[0]
+        cov = final_coverage(res)
+        res.coverage = cov
+        done = cov.get("Done", (0, 0))[0]
+        rej = cov.get("Reject", (0, 0))[0] + cov.get("RejectEmpty", (0, 0))[0]
         nrej = sum(1 for k in rejects if base <= k < base + len(part))
         if done + rej != len(part) or rej != nrej:
             raise tlc.TLCError("trace verdict not total: %d traces, %d accepted, %d rejected (%d diagnosed)"
